@@ -476,7 +476,7 @@ func init() {
 		},
 		Subs: []*checks.Sub{
 			{Name: "interleavings", Shards: func(string) int { return 16 }, Run: run, Replay: replay},
-			{Name: "orphan-system", Shards: func(string) int { return 4 }, Run: runOrphan, Replay: replayOrphan, Parallel: true},
+			{Name: "orphan-system", Shards: func(string) int { return 6 }, Run: runOrphan, Replay: replayOrphan, Parallel: true},
 		},
 	})
 }
